@@ -695,6 +695,14 @@ func c16Boundary(p int) []*big.Int {
 		add(new(big.Int).Sub(c16Pow[k], big.NewInt(1)))
 		add(new(big.Int).Add(c16Pow[k], big.NewInt(1)))
 	}
+	// machine-word boundaries (an implementation may take a fast path
+	// through int32 / int64 / uint64)
+	for _, e := range []uint{7, 8, 15, 16, 31, 32, 53, 63, 64, 127} {
+		w := new(big.Int).Lsh(big.NewInt(1), e)
+		add(w)
+		add(new(big.Int).Sub(w, big.NewInt(1)))
+		add(new(big.Int).Add(w, big.NewInt(1)))
+	}
 	add(big.NewInt(12))
 	add(big.NewInt(123))
 	add(big.NewInt(1234))
